@@ -426,11 +426,35 @@ fn enumerate(rep: &mut Report, solver: Solver, dynamic: bool, idx: &mut Vec<usiz
 // ---------------------------------------------------------------------------- fault enumeration
 
 fn fault_case(rep: &mut Report, solver: Solver, prob: &IvpProblem, cfg: &Cfg, mode: DimMode, stride: u64) {
+    fault_case_rhs(rep, solver, &FaultProblem { rhs: prob, y0: &prob.y0, json: prob.to_json(), key: &prob.a }, cfg, mode, stride, u64::MAX);
+}
+
+/// the problem of a fault enumeration: any right-hand side of the harness
+struct FaultProblem<'a> {
+    rhs: &'a dyn Rhs<f64>,
+    y0: &'a [f64],
+    json: J,
+    key: &'a [f64],
+}
+
+/// y' = -y^3: with a step cap far beyond what the problem tolerates the first trial steps overflow, and later
+/// stages of those trials are evaluated at infinite / NaN states (the steppers reject such a trial)
+struct CubicDecayRhs;
+impl Rhs<f64> for CubicDecayRhs {
+    fn dim(&self) -> usize {
+        1
+    }
+    fn eval(&self, _t: f64, y: &[f64], out: &mut [f64]) {
+        out[0] = -y[0] * y[0] * y[0];
+    }
+}
+
+fn fault_case_rhs(rep: &mut Report, solver: Solver, prob: &FaultProblem, cfg: &Cfg, mode: DimMode, stride: u64, k_limit: u64) {
     let sname = solver.name();
     let base = Opts { budget: 2_000_000, max_items: 100_000, mode, extra_next: 5, collect_after: true, ..Default::default() };
-    let reference = solve_real(solver, cfg, &prob.y0, prob, &base);
+    let reference = solve_real(solver, cfg, prob.y0, prob.rhs, &base);
     rep.eval();
-    let case0 = || J::obj().set("solver", sname).set("mode", format!("{:?}", mode)).set("cfg", cfg.to_json()).set("problem", prob.to_json());
+    let case0 = || J::obj().set("solver", sname).set("mode", format!("{:?}", mode)).set("cfg", cfg.to_json()).set("problem", prob.json.clone());
     if !reference.clean() {
         rep.inconclusive("reference-run-not-clean(C05)");
         return;
@@ -450,7 +474,7 @@ fn fault_case(rep: &mut Report, solver: Solver, prob: &IvpProblem, cfg: &Cfg, mo
     rep.count(&format!("{}/reference_calls", sname), n as i64);
     let ref_pts = reference.ok_points();
     let mut k = 1;
-    while k <= n {
+    while k <= n.min(k_limit) {
         // the value the failing call returns: mostly the harness's own error type carrying k; every
         // fourth fault point returns a boxed solver status instead (what a derivative that drives a nested
         // stepper forwards with `?`): Done, Redo or Failure(MinimumTimeDeltaExceeded) - the user's error all the same
@@ -460,7 +484,7 @@ fn fault_case(rep: &mut Report, solver: Solver, prob: &IvpProblem, cfg: &Cfg, mo
             rep.count(&format!("{}/fault_points_with_a_solver_status_as_error_value", sname), 1);
         }
         let opts = Opts { fail_at: Some(k), fail_payload: payload, ..base.clone() };
-        let out = solve_real(solver, cfg, &prob.y0, prob, &opts);
+        let out = solve_real(solver, cfg, prob.y0, prob.rhs, &opts);
         rep.eval();
         rep.count(&format!("{}/fault_points", sname), 1);
         let case = || case0().set("fail_at_call", k).set("reference_calls", n).set("error_value_returned_by_the_failing_call", ["the harness's error type Boom(k)", "boxed IVPStatus::Done", "boxed IVPStatus::Redo", "boxed IVPStatus::Failure(MinimumTimeDeltaExceeded)"][payload as usize]);
@@ -526,7 +550,7 @@ fn fault_case(rep: &mut Report, solver: Solver, prob: &IvpProblem, cfg: &Cfg, mo
         }
         if ok {
             // collect_vec on an identically configured run returns that error
-            let o2 = solve_real(solver, cfg, &prob.y0, prob, &Opts { collect_vec: true, ..opts.clone() });
+            let o2 = solve_real(solver, cfg, prob.y0, prob.rhs, &Opts { collect_vec: true, ..opts.clone() });
             rep.eval();
             match o2.items.as_slice() {
                 [Item::Err(ErrKind::User(_, Some(kk)))] if *kk == want => {}
@@ -541,7 +565,7 @@ fn fault_case(rep: &mut Report, solver: Solver, prob: &IvpProblem, cfg: &Cfg, mo
             }
         }
         if ok {
-            rep.nontrivial(CaseHash::new("c06-fault").u(solver.idx() as u64).fs(&prob.a).f(cfg.tol).f(cfg.t1).u(k).0);
+            rep.nontrivial(CaseHash::new("c06-fault").u(solver.idx() as u64).fs(prob.key).f(cfg.tol).f(cfg.t1).u(k).0);
             if rep.wants_sample() && k == n / 2 + 1 {
                 let hist: Vec<J> = out.items.iter().map(|i| match i {
                     Item::Ok(t, _) => J::from(format!("Ok(t={:.6})", t)),
@@ -640,6 +664,40 @@ pub fn stages(ctx: &Ctx) -> Vec<Stage> {
         let cfg = Cfg { t0: 0.0, t1: dt_max * steps, dt_min: dt_max * 1e-7, dt_max, tol };
         fault_case(rep, solver, &prob, &cfg, if p % 2 == 0 { DimMode::Static } else { DimMode::Dynamic }, 1);
     }));
+    // (2b) faults at calls that receive a non-finite state (round 11): Runge-Kutta solvers on y' = -y^3 from a large
+    // state with a step cap of the whole interval; the first trials overflow, and the calls of their later stages
+    // get an infinite or NaN state (calls 6, 12, 18 for RK45 from 1000; observed and counted by the stage itself). An error returned there is the user's
+    // error like any other. Every call of the first 400 is a fault point.
+    st.push(Stage::new("faults-on-overflowing-trials", 2 * 4, move |i, rep| {
+        // (RK45 only: the three-stage scheme needs a state of 1e12 for a stage to overflow within one trial, and its
+        // fault-free path from there is longer than the item cap of the driver; step() is shared by both schemes)
+        let solver = Solver::RK45;
+        let y0 = [1000.0, 300.0, 100.0, 3000.0][(i / 2) as usize];
+        let cfg = Cfg { t0: 0.0, t1: 1.0, dt_min: 1e-12, dt_max: 1.0, tol: 1e-4 };
+        // count the calls of a fault-free run that receive a non-finite state
+        struct Watch(std::sync::atomic::AtomicU64);
+        impl Rhs<f64> for Watch {
+            fn dim(&self) -> usize {
+                1
+            }
+            fn eval(&self, _t: f64, y: &[f64], out: &mut [f64]) {
+                if !y[0].is_finite() {
+                    self.0.fetch_add(1, std::sync::atomic::Ordering::Relaxed);
+                }
+                out[0] = -y[0] * y[0] * y[0];
+            }
+        }
+        let w = Watch(std::sync::atomic::AtomicU64::new(0));
+        let r0 = solve_real(solver, &cfg, &[y0], &w, &Opts { budget: 2_000_000, max_items: 100_000, mode: DimMode::Static, ..Default::default() });
+        let nonfinite = w.0.load(std::sync::atomic::Ordering::Relaxed);
+        if r0.clean() && nonfinite > 0 {
+            rep.count(&format!("{}/derivative_calls_with_a_non_finite_state_in_the_fault_free_run", solver.name()), nonfinite as i64);
+            rep.count(&format!("{}/fault_enumerations_over_a_run_with_overflowing_trials", solver.name()), 1);
+        }
+        let y0v = [y0];
+        let key = [y0, -3.0];
+        fault_case_rhs(rep, solver, &FaultProblem { rhs: &CubicDecayRhs, y0: &y0v, json: J::obj().set("rhs", "y' = -y^3").set("y0", y0), key: &key }, &cfg, if i % 2 == 0 { DimMode::Static } else { DimMode::Dynamic }, 1, 400);
+    }));
     // (3) valid configurations far from the enumerated values: every complete configuration with
     // t1 > t0, 0 < dt_min <= dt_max and tol > 0 must build, whatever the scales involved (start
     // times up to 1e10 in magnitude, minimum steps below the spacing of the floats at the start
@@ -694,6 +752,7 @@ pub fn stages(ctx: &Ctx) -> Vec<Stage> {
 
 pub fn thresholds(ctx: &Ctx, rep: &Report) -> Vec<Threshold> {
     let mut t = vec![];
+    t.push(Threshold { what: "RK45: fault enumerations over a fault-free run in which derivative calls received a non-finite state".into(), required: 6.0, observed: rep.counter("RK45/fault_enumerations_over_a_run_with_overflowing_trials") as f64 });
     for sv in Solver::ALL {
         t.push(Threshold { what: format!("{}: valid configurations whose minimum step is below the spacing of the floats at the start time", sv.name()), required: ctx.tier.pick(300.0, 6_000.0), observed: rep.counter(&format!("{}/scaled_valid_configs_min_step_below_time_resolution", sv.name())) as f64 });
     }
